@@ -280,7 +280,13 @@ class SysEngine(MempoolEngine):
         if rng.random() < 0.3:
             h = rng.randrange(1, len(chain))
         cp_at = None
-        if at == 'big' and self.big_h is not None and self.big_h < len(chain):
+        if isinstance(at, tuple) and at[0] == 'height':
+            # a given height of the chain the *server* is on (blocks about to be undone)
+            b = self.world.by_hash.get(self.srv.bp.state.tip)
+            if b is not None:
+                chain = b.chain()
+            h = max(1, min(at[1], len(chain) - 1))
+        elif at == 'big' and self.big_h is not None and self.big_h < len(chain):
             h = self.big_h
         elif at == 'tipcp':
             cp_at = len(chain) - 1 - rng.choice((0, 0, 0, 1))
@@ -629,6 +635,26 @@ class SysEngine(MempoolEngine):
                     job.park_secs = rng.choice((6, 11, 17, 26))      # below the 30 s request / notification timeouts
                     self.bump('jobs_long_parked')
             loop.gex.on_submit = on_submit
+        if c.get('query_at_backup'):
+            # by-height proof requests for the very blocks a reorg is about to undo, sent when the first back-up job is submitted;
+            # that job is held for a few seconds so that the requests complete (and fill the per-height caches) before the undo
+            prev_submit = loop.gex.on_submit
+            st_b = {'last': -1}
+
+            def on_submit_b(job):
+                if prev_submit:
+                    prev_submit(job)
+                if job.name.split('.')[-1] == 'backup_block' and not self.quiescing and self.querier is not None:
+                    h = self.srv.bp.state.height
+                    if st_b['last'] != self.srv.sm._reorg_count:
+                        st_b['last'] = self.srv.sm._reorg_count
+                        job.longpark = 'start'
+                        job.park_secs = 4
+                        self.bump('reorgs_with_requests_sent_at_their_first_backup')
+                        for dh in (0, 1):
+                            for qk in ('id_from_pos_merkle', 'get_merkle', 'id_from_pos'):
+                                asyncio.ensure_future(self.query(qk, self.querier, at=('height', h - dh)))
+            loop.gex.on_submit = on_submit_b
         loop.hooks.append(self.db_height_hook)
         self.scripts = [s for s in w.scripts if not unspendable(s, 10 ** 9, w.activation) and s[:1] != b'\x6a'][:c.get('nscripts', 8)]
         self.tips_seen.append(w.tip)
